@@ -33,6 +33,15 @@ def assume_valid_task(P, cls, tag, vdt=("min",)):
             P.assume(P.int(f"{tag}_max") >= 1)
 
 
+def dated_kw(case, i):
+    """release date and due date of the i-th task of a `dated` case: "soft" -- every due date may be missed;
+    "mixed" -- hard and soft due dates alternate"""
+    d = case.get("dated")
+    if not d:
+        return {}
+    return dict(release=True, due=True, deadline=(d == "mixed" and i % 2 == 0))
+
+
 def valid_placement(t, k, hz, H):
     """user-level validity of one task's placement (C01 meaning; an unscheduled task sits at the
     library's conventional point -k with zero duration -- auxiliary from the user's point of view)"""
@@ -77,12 +86,28 @@ class TCBase(Contract):
     def task_combos(self, tier):
         return list(itertools.product(KINDS6, repeat=self.ntasks))
 
+    def dated_combos(self, tier):
+        """task mixes that are also run with release dates and due dates (soft or hard) on every task: "whatever
+        else the problem contains" includes what the tasks themselves declare"""
+        combos = self.task_combos(tier)
+        n = len(combos[0]) if combos else 0
+        if n == 0:
+            return []
+        base = [("FixedDurationTask", False), ("VariableDurationTask", True), ("FixedDurationTask", True)]
+        return [(tuple(base[i % 3] for i in range(n)), "soft"), (tuple(base[(i + 2) % 3] for i in range(n)), "mixed")]
+
     def cases(self, tier):
         out = []
         for combo in self.task_combos(tier):
             for extra in self.extra_cases(tier):
                 d = {f"t{i+1}": f"{c[0][:1]}{'o' if c[1] else 'm'}" for i, c in enumerate(combo)}
                 d.update(extra)
+                out.append(d)
+        for combo, dated in self.dated_combos(tier):
+            for extra in self.extra_cases(tier):
+                d = {f"t{i+1}": f"{c[0][:1]}{'o' if c[1] else 'm'}" for i, c in enumerate(combo)}
+                d.update(extra)
+                d["dated"] = dated
                 out.append(d)
         return out
 
@@ -97,7 +122,7 @@ class TCBase(Contract):
         for i in range(n):
             cls, opt = self._decode(case[f"t{i+1}"])
             assume_valid_task(P, cls, f"t{i+1}")
-            tasks.append(make_task(ps, P, cls, f"t{i+1}", optional=opt))
+            tasks.append(make_task(ps, P, cls, f"t{i+1}", optional=opt, **dated_kw(case, i)))
         return tasks
 
     def scenario(self, ps, P, case):
